@@ -6,6 +6,7 @@ From Coq Require Import List Bool ZArith String.
 Open Scope string_scope.
 From Echo Require Import Base.Sx Mw.Cors Mw.CorsProofs.
 Import ListNotations.
+From Echo Require Import PropLemmas.C11.
 
 (* Access-Control-Allow-Origin is emitted only for an allowed origin, and its value is "*" or the
    request's Origin verbatim *)
@@ -15,7 +16,7 @@ Theorem C11_only_allowed : forall c pre origin v,
   (v = [star] /\ In [star] (origins c)) \/
   (v = origin /\ exists p, In p (origins c) /\
       ((p = [star] /\ creds c = true /\ unsafe_wild c = true) \/ p = origin \/ gm p origin = true)).
-Proof. intros c pre origin v Hs Hp H. apply cors_acao in H as [_ H]. eapply only_allowed; eassumption. Qed.
+Proof. exact C11_only_allowed_l. Qed.
 Print Assumptions C11_only_allowed.
 
 (* the sub-domain shortcut (util.go matchSubdomain) never accepts more than the pattern does *)
